@@ -51,6 +51,9 @@ func fixedScenarios() []*Scenario {
 		{Metrics: true, Starts: []int{bOK}, Readies: []int{bOK}, Shuts: []int{bOK}, Stops: []int{bOK}, Reqs: []Rel{{Kind: "J"}, {Kind: "D"}}},
 		{Proto: pTLS, Stops: []int{bOK}, Reqs: []Rel{{Kind: "J"}}},
 		{ShortWrite: true, Shuts: []int{bOK}, Stops: []int{bOK}, Reqs: []Rel{{Kind: "D"}, {Kind: "H", J: 0}}},
+		// the only request in flight at the stop signal is served by a route registered on the router itself
+		{RawRoute: true, Shuts: []int{bOK}, Stops: []int{bOK}, Reqs: []Rel{{Kind: "D"}}},
+		{RawRoute: true, Metrics: true, Shuts: []int{bOK, bOK}, Stops: []int{bOK}, Reqs: []Rel{{Kind: "H", J: 0}, {Kind: "D"}}},
 		{NReload: 1, Stops: []int{bOK}, Rounds: []Round{{Trig: 0, CancelAt: -1, Pair: true}, {Trig: 0, CancelAt: -1, CtxEnds: true}, {Trig: 0, CancelAt: -1}, {Trig: 1, CancelAt: -1}}},
 		{NReload: 2, Stops: []int{bOK}, Rounds: []Round{{Trig: 1, CancelAt: -1, Pair: true}, {Trig: 0, Beh: []int{bOK, bErr}, CancelAt: -1, CtxEnds: true}, {Trig: 1, CancelAt: -1}}},
 		// a SIGHUP during the shutdown sequence (with and without reload hooks): the process must survive it
@@ -242,6 +245,10 @@ func genScenario(r *hx.Rand, tier string) *Scenario {
 		if !hasD && r.Chance(1, 2) {
 			sc.Reqs = append(sc.Reqs, Rel{Kind: "D"})
 		}
+	}
+	// the requests in flight go to a route registered on the router itself
+	if len(sc.Reqs) > 0 && r.Chance(1, 5) {
+		sc.RawRoute = true
 	}
 	// a caller that gives up while its reload waits for its turn, and a reload after it
 	for i := 0; i+1 < len(sc.Rounds); i++ {
